@@ -251,8 +251,95 @@ func genC16(r *fw.Rng, tier string, emit func(fw.Case)) {
 	}
 }
 
-var C16 = &fw.Prop{ID: "C16", Gen: genC16, Oracle: oracleC16,
+// genC16Sock: the same situations driven over a socket (the `att` scenarios of C15, aimed at the completion report):
+// holes of more than 64 KiB, many holes, several rounds of "0x1212 -> resend part of what was asked for -> 0x1212".
+func genC16Sock(r *fw.Rng, tier string, emit func(fw.Case)) {
+	n := 10
+	if tier == "thorough" {
+		n = 150
+	}
+	for i := 0; i < n; i++ {
+		astype := 1 + i%5
+		size := r.Pick([]int{300000, 200000, 140000, 9000, 500})
+		if i%2 == 1 {
+			size = 1 + r.Intn(20000)
+		}
+		content := r.Bytes(size)
+		name := []byte(fmt.Sprintf("g%d.bin", i))
+		var parts []seg
+		for off := 0; off < size; {
+			l := 1 + r.Intn(r.Pick([]int{50, 1500, 20000, 65536}))
+			if off+l > size {
+				l = size - off
+			}
+			parts = append(parts, seg{off, l})
+			off += l
+		}
+		// a run of consecutive chunks is lost (one large hole), others individually
+		lost := map[int]bool{}
+		if len(parts) > 2 {
+			a := r.Intn(len(parts))
+			for k := a; k < len(parts) && k < a+1+r.Intn(6); k++ {
+				lost[k] = true
+			}
+		}
+		for k := range parts {
+			if r.Chance(20) {
+				lost[k] = true
+			}
+		}
+		if len(lost) == len(parts) {
+			delete(lost, 0)
+		}
+		events := []string{"A", "B0"}
+		var missing []seg
+		for k, p := range parts {
+			if lost[k] {
+				missing = append(missing, p)
+				continue
+			}
+			events = append(events, fmt.Sprintf("K0:%d:%d", p.off, p.ln))
+		}
+		events = append(events, "E0")
+		// the resends come in up to three rounds, each closed by a 0x1212
+		for len(missing) > 0 {
+			k := 1 + r.Intn(len(missing))
+			if r.Chance(40) {
+				k = len(missing)
+			}
+			for _, p := range missing[:k] {
+				events = append(events, fmt.Sprintf("K0:%d:%d", p.off, p.ln))
+			}
+			missing = missing[k:]
+			events = append(events, "E0")
+		}
+		cut := r.U64()%1000000 + 1
+		if r.Chance(30) {
+			cut = 0
+		}
+		emit(fw.Case{Op: "att", Args: []string{strconv.Itoa(astype), strconv.FormatUint(cut, 10), fw.Hex(name) + ":" + fw.Hex(content), strings.Join(events, ","), "GAPS" + strconv.Itoa(i)}})
+	}
+}
+
+var C16 = &fw.Prop{ID: "C16",
+	Gen: func(r *fw.Rng, tier string, emit func(fw.Case)) {
+		genC16(r, tier, emit)
+		genC16Sock(r.Fork(), tier, emit)
+	},
+	Oracle: func(c fw.Case) *fw.OracleFailure {
+		if c.Op == "att" {
+			if attLast.key == strings.Join(c.Args, " ") {
+				return attLast.orc
+			}
+			execAtt(c)
+			return attLast.orc
+		}
+		return oracleC16(c)
+	},
 	Exec: func(c fw.Case) string {
+		if c.Op == "att" {
+			return execAtt(c)
+		}
 		F, _ := strconv.Atoi(c.Args[0])
 		cur, _ := strconv.Atoi(c.Args[1])
 		segs := parseSegs(c.Args[2])
@@ -267,6 +354,9 @@ var C16 = &fw.Prop{ID: "C16", Gen: genC16, Oracle: oracleC16,
 		return "bad-op"
 	},
 	Class: func(c fw.Case, res string) string {
+		if c.Op == "att" {
+			return fmt.Sprintf("att:%d-reports", strings.Count(res, "9212/"))
+		}
 		F, _ := strconv.Atoi(c.Args[0])
 		cur, _ := strconv.Atoi(c.Args[1])
 		segs := parseSegs(c.Args[2])
